@@ -27,6 +27,7 @@ T_Reset == IsEvent("Reset") /\ Blank
 
 Sum(s) == FoldSeq(LAMBDA x, a : x + a, 0, s)
 Padded == caps # <<>> /\ tailUsed < caps[Len(caps)]
+NoEmptyPacket == \A k \in 1..Len(caps) : caps[k] > 0
 
 \* layout the property prescribes for a write of n bytes with body size b
 RECURSIVE Grow(_, _, _, _)
@@ -72,9 +73,11 @@ T_ReadInside ==
     /\ (E.op = "Read" => E.cnt = E.n)                               \* io.Reader: buffer filled, count = len(p)
     /\ cur' = cur + E.n
     /\ (E.consumed => cur' = Len(flat))                              \* never "all consumed" before the end
-    /\ (E.n > 0 /\ cur' = Len(flat) /\ ~Padded => E.consumed)
+    \* the converse only without zero-length packets in the queue: behind one the position token is
+    \* not normalised and the statement says nothing about the queries (DESIGN.md section 16)
+    /\ (E.n > 0 /\ cur' = Len(flat) /\ ~Padded /\ NoEmptyPacket => E.consumed)
     /\ (E.iseom => (E.consumed /\ eomSeen))
-    /\ (E.n > 0 /\ cur' = Len(flat) /\ ~Padded /\ eomSeen => E.iseom)
+    /\ (E.n > 0 /\ cur' = Len(flat) /\ ~Padded /\ eomSeen /\ NoEmptyPacket => E.iseom)
     /\ Consistent(cur') /\ Remember(cur')
     /\ UNCHANGED <<flat, caps, tailUsed, eomSeen>>
 \* A read beyond the available bytes must report not-enough-bytes.  Where the cursor is
